@@ -113,15 +113,24 @@ class Ctx:
         self.findings.append(Finding(self.prop, rid, file, line, fn, construct, message, extra))
 
     # ---- anchors
+    def _lookup(self, fid):
+        F = self.F['functions']
+        f = F.get(fid)
+        if f is None:
+            # cv-qualification of a member function is not part of what a rule anchors on
+            alt = fid[:-len(' const')] if fid.endswith(' const') else fid + ' const'
+            f = F.get(alt)
+        return f
+
     def fn(self, fid):
-        f = self.F['functions'].get(fid)
+        f = self._lookup(fid)
         if f is None:
             raise AnalysisBroken('%s: anchor function vanished: %s' % (self.prop, fid))
         self.touch(f)
         return f
 
     def fn_opt(self, fid):
-        f = self.F['functions'].get(fid)
+        f = self._lookup(fid)
         if f:
             self.touch(f)
         return f
